@@ -24,7 +24,7 @@ impl MarkerBuilder for UnwrapBlockMarkerBuilder {
         // If the range is invalid, do nothing.
         match (start_el_remove_end_pos, end_el_remove_start_pos) {
             (Some(end), Some(start)) => {
-                if start > end {
+                if start >= end {
                     (
                         el.start_token.byte_start..end,
                         Some(start + 1..el.end_token.byte_end),
